@@ -839,8 +839,16 @@ fn c16_file(r: &mut Rng, idx: u64, t: &mut Tally, workdir: &str) {
     let ind = if in_rule { "    " } else { "  " };
     text.push_str(&format!("{ind}Scenario: plain <a>\n{ind}  Given plain <b>\n"));
     std::fs::write(&path, &text).expect("write feature");
-    let items: Vec<parser::Result<gherkin::Feature>> =
-        block_on(parser::Basic::new().parse(PathBuf::from(&path), cucumber::parser::basic::Cli::default()).collect());
+    // the three ways the stock parser finds its files: a file path, a directory, the `--input <glob>` option
+    let route = r.below(3);
+    let pcli = if route == 2 {
+        cucumber::parser::basic::Cli { features: Some(format!("{dir}/*.feature").parse().expect("glob")) }
+    } else {
+        cucumber::parser::basic::Cli::default()
+    };
+    let input = if route == 1 { PathBuf::from(&dir) } else { PathBuf::from(&path) };
+    t.count(["c16.files_parsed_by_path", "c16.files_parsed_by_directory", "c16.files_parsed_by_input_glob"][route], 1);
+    let items: Vec<parser::Result<gherkin::Feature>> = block_on(parser::Basic::new().parse(input, pcli).collect());
     let _ = std::fs::remove_dir_all(&dir);
     t.count("c16.files_parsed", 1);
     if items.len() != 1 {
